@@ -11,8 +11,15 @@ Four parts, all exhaustive within the bound (mc.models.glob is the oracle, a bac
   doc                 documents of 1..3 Files paragraphs over a 6-list pool, with stand-alone License
                       paragraphs in every subset of the gaps, built from text and through the API, x every
                       name, for find_files_paragraph.
+  dockinds            the documents of 1 paragraph (every gap subset) and of 2 paragraphs (no License paragraph / one
+                      between the two) once more, the text handed to Copyright(...) in every other documented way: lines
+                      without their newlines, a tuple, a generator, io.StringIO, a text-mode file object, the whole str,
+                      the whole text as UTF-8 bytes, UTF-8 bytes lines / io.BytesIO with encoding=, bytes lines /
+                      io.BytesIO in another 8-bit encoding with encoding= (the "parse" route itself is a list of lines with newlines); x every name (two
+                      paragraphs: every name of length 0..2).
 Every pattern list is installed both with FilesParagraph.create() and by parsing a document (strict).
 """
+import io
 import itertools
 import logging
 
@@ -29,7 +36,9 @@ RULE = ("Engine B: states = pattern lists generated (trie of patterns, then of l
         "format error (plain 'no match' is the trivial verdict); histories in which the list changes between two "
         "matches() calls; (document, name) pairs where first and last matching paragraph differ.  sweep: states = "
         "pattern lists built around one swept literal, transitions = the same, traces = (route, list, name) triples, "
-        "each on a fresh paragraph (a few coincide with triples of the single/pairs parts)")
+        "each on a fresh paragraph (a few coincide with triples of the single/pairs parts).  dockinds: the way the "
+        "document text reaches Copyright(...) is one more choice below (document, route 'parse'): states = documents, "
+        "traces = (input kind, document, name) triples on find_files_paragraph, non-trivial as for doc")
 BUDGET = {"quick": 240, "thorough": 3000}
 
 HEADER = "Format: https://www.debian.org/doc/packaging-manuals/copyright-format/1.0/\n"
@@ -37,24 +46,41 @@ ROUTES = ("create", "parse")
 
 
 def _n(tier):
+    """longest name asked of a document"""
     return 3 if tier == "quick" else 4
+
+
+def _nl(tier):
+    """longest single pattern, and longest name asked of a pattern list (single, pairs, triples)"""
+    return 3 if tier == "quick" else 5
+
+
+HIST_DEPTH = {"quick": 3, "thorough": 6}
+DOCHIST_DEPTH = {"quick": 3, "thorough": 5}
 
 
 def bounds(tier):
     n = _n(tier)
     return {"pattern_alphabet": "a b / * ? \\", "name_alphabet": "a b / * ? \\ \\n",
-            "single_pattern_len": "1..%d" % n, "name_len": "0..%d" % n,
+            "single_pattern_len": "1..%d" % _nl(tier), "name_len": "0..%d for pattern lists, 0..%d for documents" % (_nl(tier), n),
             "pairs": "all ordered pairs of patterns of length 1..2 (42^2 lists)",
             "triples": "all triples of patterns of length 1 (6^3 lists)",
             "routes": list(ROUTES),
+            "doc_input_kinds": {"kinds": list(DOC_KINDS),
+                                "documents": "1 Files paragraph over the 6-list pool x all 4 gap subsets; 2 Files paragraphs (36) "
+                                             "x {no License paragraph, one between them}; x every name of length 0..%d (one "
+                                             "paragraph) / 0..2 (two paragraphs)" % n,
+                                "other_encoding": "first of %s that can write the document" % (OTHER_ENCODINGS,)},
             "sweep": "one literal at a time: c = each of %d characters (printable ASCII without * ? \\ and white space, "
                      "%d non-ASCII letters) in the lists %r x names %r, both routes"
                      % (len(sweep_chars()), len(SWEEP_NON_ASCII), [[p.replace("%", "<c>") for p in l] for l in SWEEP_LISTS],
                         [n.replace("%", "<c>") for n in SWEEP_NAMES]),
-            "history_depth": {"quick": 3, "thorough": 5}[tier], "history_lists": 5, "history_names": 4,
+            "history_depth": HIST_DEPTH[tier], "history_lists": 5, "history_names": 4,
             "history_graph": "fixpoint over (current list, compiled list)",
+            "document_history_depth": DOCHIST_DEPTH[tier],
             "doc_paragraphs": "1..3 Files paragraphs over a 6-list pool x every subset of the k+1 gaps holding a "
-                              "License paragraph x {text, api}"}
+                              "License paragraph x {text, api}" + ("; 4 Files paragraphs (6^4) x {no License paragraph, one in "
+                                                                   "every gap} x {text, api}" if tier == "thorough" else "")}
 
 
 def assumptions():
@@ -72,7 +98,13 @@ def assumptions():
             "letters; control characters are not swept (a pattern is a whitespace-separated word of a deb822 value and "
             "what the deb822 layer does to control characters is not this property's business)",
             "the model (backtracking) is cross-checked against an independent table-driven matcher on every "
-            "single pattern x name"]
+            "single pattern x name",
+            "input kinds: Copyright documents 'sequence: Sequence of lines, e.g. a list of strings or a file-like object' and "
+            "'encoding: Encoding to use, in case input is raw byte strings'; the underlying Deb822.iter_paragraphs also takes "
+            "the whole text as one str.  All of these parse the same document on the unchanged library, so every kind must "
+            "give the same Files paragraphs and the same find_files_paragraph answers.  Lines 'without newline' are the text "
+            "split at '\\n'.  encoding= is only passed together with bytes input (with str input a non-UTF-8 encoding= is not "
+            "what the docstring describes)"]
 
 
 # ------------------------------------------------------------------------------------------------ alphabet
@@ -164,24 +196,25 @@ def units(tier, seed):
     n = _n(tier)
     a, b, pa, na = alphabet(seed)
     base = {"pa": pa, "na": na, "n": n}
+    lbase = dict(base, n=_nl(tier))
     out = []
-    out.append(dict(base, part="single", length=1, prefix=""))
-    out.append(dict(base, part="single", length=2, prefix=""))
+    out.append(dict(lbase, part="single", length=1, prefix=""))
+    out.append(dict(lbase, part="single", length=2, prefix=""))
     for c in pa:
-        out.append(dict(base, part="single", length=3, prefix=c))
-    if n >= 4:
+        out.append(dict(lbase, part="single", length=3, prefix=c))
+    for length in range(4, _nl(tier) + 1):
         for c in strings(pa, 2, 2):
-            out.append(dict(base, part="single", length=4, prefix=c))
+            out.append(dict(lbase, part="single", length=length, prefix=c))
     short = strings(pa, 1, 2)
     for p in short:
-        out.append(dict(base, part="pairs", first=p))
+        out.append(dict(lbase, part="pairs", first=p))
     for p in pa:
-        out.append(dict(base, part="triples", first=p))
+        out.append(dict(lbase, part="triples", first=p))
     sc = sweep_chars()
     for i in range(0, len(sc), SWEEP_CHUNK):
         out.append({"part": "sweep", "chars": sc[i:i + SWEEP_CHUNK]})
     lists, names = hist_menu(seed)
-    depth = 3 if tier == "quick" else 5
+    depth = HIST_DEPTH[tier]
     for route in ROUTES:
         out.append({"part": "hist-graph", "route": route, "lists": lists, "names": names})
     for route in ROUTES:
@@ -194,7 +227,7 @@ def units(tier, seed):
         for i in range(len(dh_pool)):
             for j in range(len(dh_pool)):
                 out.append({"part": "dochist", "route": route, "pool": dh_pool, "names": dh_names, "init": [i, j],
-                            "depth": 3 if tier == "quick" else 4})
+                            "depth": DOCHIST_DEPTH[tier]})
     pool = doc_pool(seed)
     out.append(dict(base, part="doc", pool=pool, k=1, fixed=[]))
     for i in range(len(pool)):
@@ -202,6 +235,15 @@ def units(tier, seed):
     for i in range(len(pool)):
         for j in range(len(pool)):
             out.append(dict(base, part="doc", pool=pool, k=3, fixed=[i, j]))
+    if tier == "thorough":
+        for i in range(len(pool)):
+            for j in range(len(pool)):
+                out.append(dict(base, part="doc", pool=pool, k=4, fixed=[i, j], masks=[0, 31]))
+    # the same small documents, the text handed to Copyright(...) in every other documented way
+    out.append(dict(base, part="doc", pool=pool, k=1, fixed=[], routes=["parse:" + k for k in DOC_KINDS], kinds=True))
+    for i in range(len(pool)):
+        out.append(dict(base, n=2, part="doc", pool=pool, k=2, fixed=[i], masks=[0, 2], routes=["parse:" + k for k in DOC_KINDS],
+                        kinds=True))
     return out
 
 
@@ -221,7 +263,8 @@ def unit_cost(u, tier):
         return 1000
     if part == "dochist":
         return (15 ** u["depth"]) * 8
-    return (6 ** (u["k"] - len(u["fixed"]))) * (2 ** (u["k"] + 1)) * 2 * (7 ** u["n"]) * 4
+    return ((6 ** (u["k"] - len(u["fixed"]))) * len(u.get("masks") or range(2 ** (u["k"] + 1))) * len(u.get("routes") or "12")
+            * (7 ** u["n"]) * 4)
 
 
 # ------------------------------------------------------------------------------------------------ real side
@@ -711,13 +754,72 @@ def doc_layout(file_lists, mask):
     return out
 
 
+DOC_KINDS = ["lines-nonl", "tuple-lines", "generator", "generator-nonl", "StringIO", "textfile", "str", "bytes", "bytes-lines",
+             "BytesIO", "bytes-lines-other-encoding", "BytesIO-other-encoding"]
+OTHER_ENCODINGS = ["latin-1", "iso-8859-5", "euc-jp"]
+
+
+def other_encoding(text):
+    for enc in OTHER_ENCODINGS:
+        try:
+            text.encode(enc)
+            return enc
+        except UnicodeEncodeError:
+            pass
+    raise AssertionError("no 8-bit encoding for %r" % (text,))
+
+
+def _generate(lines):
+    for line in lines:
+        yield line
+
+
+def parse_doc(C, text, kind):
+    """Copyright(...) of a document text handed over in the given way ('' = the list of lines with newlines)"""
+    if kind == "":
+        return C.Copyright(text.splitlines(True), strict=True)
+    if kind == "lines-nonl":
+        return C.Copyright(text.split("\n")[:-1], strict=True)
+    if kind == "tuple-lines":
+        return C.Copyright(tuple(text.splitlines(True)), strict=True)
+    if kind == "generator":
+        return C.Copyright(_generate(text.splitlines(True)), strict=True)
+    if kind == "generator-nonl":
+        return C.Copyright(_generate(text.split("\n")[:-1]), strict=True)
+    if kind == "StringIO":
+        return C.Copyright(io.StringIO(text), strict=True)
+    if kind == "textfile":
+        return C.Copyright(io.TextIOWrapper(io.BytesIO(text.encode("utf-8")), encoding="utf-8", newline=""), strict=True)
+    if kind == "str":
+        return C.Copyright(text, strict=True)
+    if kind == "bytes":
+        return C.Copyright(text.encode("utf-8"), encoding="utf-8", strict=True)
+    if kind == "bytes-lines":
+        return C.Copyright(text.encode("utf-8").splitlines(True), encoding="utf-8", strict=True)
+    if kind == "BytesIO":
+        return C.Copyright(io.BytesIO(text.encode("utf-8")), encoding="utf-8", strict=True)
+    if kind == "bytes-lines-other-encoding":
+        enc = other_encoding(text)
+        return C.Copyright(text.encode(enc).splitlines(True), encoding=enc, strict=True)
+    if kind == "BytesIO-other-encoding":
+        enc = other_encoding(text)
+        return C.Copyright(io.BytesIO(text.encode(enc)), enc, True)
+    raise AssertionError(kind)
+
+
+def _ksig(route, sig):
+    """a failure that needs one input kind is a different bug: its signature says which kind"""
+    kind = route.partition(":")[2]
+    return "in-%s/%s" % (kind, sig) if kind else sig
+
+
 def build_doc(layout, route):
     """-> ('ok', Copyright, [FilesParagraph...]) | ('fail', ...)"""
     C = _copyright()
     try:
-        if route == "parse":
+        if route.startswith("parse"):
             text = HEADER + "".join("\n" + (files_text(p[1]) if p[0] == "F" else LIC_TEXT) for p in layout)
-            doc = C.Copyright(text.splitlines(True), strict=True)
+            doc = parse_doc(C, text, route.partition(":")[2])
         else:
             doc = C.Copyright()
             for p in layout:
@@ -810,6 +912,10 @@ def _showidx(got):
 
 
 def run_doc_case(case):
+    return [(_ksig(case["route"], b[0]),) + tuple(b[1:]) for b in _run_doc_case(case)]
+
+
+def _run_doc_case(case):
     file_lists = [p[1] for p in case["layout"] if p[0] == "F"]
     res = build_doc([tuple(p) for p in case["layout"]], case["route"])
     j = judge_doc_build(file_lists, res)
@@ -843,17 +949,19 @@ def _docs(part, u):
             cls = ("doc:error" if "ERR" in verdicts else "doc:none" if not hits else
                    "doc:unique-match" if len(hits) == 1 else "doc:several-matches")
             per_name.append((nm, find_answers(verdicts), cls))
-        for mask in range(1 << (k + 1)):
+        for mask in (u.get("masks") or range(1 << (k + 1))):
             layout = doc_layout(file_lists, mask)
             part.states += 1
             part.transitions += len(layout)
-            for route in ("parse", "api"):
+            for route in (u.get("routes") or ("parse", "api")):
                 res = build_doc(layout, route)
                 base = {"part": "doc", "route": route, "layout": [list(p) for p in layout]}
                 j = judge_doc_build(file_lists, res)
                 part.evaluations += 1
+                if u.get("kinds"):
+                    part.extra["documents read as " + route.partition(":")[2]] += 1
                 if j:
-                    part.violation(j[0], dict(base, name=""), j[1], j[2])
+                    part.violation(_ksig(route, j[0]), dict(base, name=""), j[1], j[2])
                     continue
                 if res[0] != "ok":
                     part.outcomes["doc:rejected-when-built"] += 1
@@ -870,18 +978,19 @@ def _docs(part, u):
                             raise AssertionError("table and judge_find() disagree on %r" % (case,))
                         sig = j[0]
                         hsig = "find/history-dependent/" + sig
-                        if part.viol_sigs[hsig] >= core.MAX_STORED_PER_SIG and part.viol_sigs[sig] == 0:
+                        if part.viol_sigs[_ksig(route, hsig)] >= core.MAX_STORED_PER_SIG and part.viol_sigs[_ksig(route, sig)] == 0:
                             # only ever seen as history-dependent in this unit; the stored cases were verified by re-execution
                             sig = hsig
-                        elif part.viol_sigs[sig] < core.MAX_STORED_PER_SIG or part.viol_sigs[hsig] < core.MAX_STORED_PER_SIG:
-                            if [b[0] for b in run_doc_case(case)] != [sig]:
+                        elif (part.viol_sigs[_ksig(route, sig)] < core.MAX_STORED_PER_SIG
+                              or part.viol_sigs[_ksig(route, hsig)] < core.MAX_STORED_PER_SIG):
+                            if [b[0] for b in _run_doc_case(case)] != [sig]:
                                 # a fresh document answers differently: the answer depends on the earlier queries
                                 case = dict(base, name=nm, na=u["na"], n=u["n"], before=qi)
                                 sig = "find/history-dependent/" + sig
-                                if [b[0] for b in run_doc_case(case)] != [sig]:
+                                if [b[0] for b in _run_doc_case(case)] != [sig]:
                                     raise AssertionError("explorer and run_doc_case disagree on %r" % (case,))
-                        part.violation(sig, case, j[1], j[2])
-                    if route == "parse":
+                        part.violation(_ksig(route, sig), case, j[1], j[2])
+                    if route == "parse" or route == (u.get("routes") or [None])[0]:
                         part.outcomes[cls] += 1
                         if mask == 0 and cls == "doc:several-matches":
                             part.nontrivial += 1
